@@ -53,7 +53,8 @@ func (b *batch) CAS(key []byte, newVal []byte, oldVal []byte, ttl int64) {
 		val, err := b.txn.Get(ctx, key)
 		if err != nil {
 			if tikverr.IsErrNotFound(err) {
-				return storage.ErrKeyNotFound
+				// a missing key fails the compare as well
+				return storage.NewErrConflict(idx, key, nil)
 			}
 			return errors.Wrapf(err, "fail to get key %s", string(key))
 		}
